@@ -172,7 +172,9 @@ func runSchedule(c *SCase, dir string) (res Result) {
 		}
 	case "regcold":
 		// nothing is cached; the loader holds version 1; goroutine 1 registers version 2 while the others load
-		e.RegisterLoader(twig.NewArrayLoader(map[string]string{"same": "ver:1:{{ x }}"}))
+		// (the loader dates its template ahead of the wall clock -- a file server whose clock runs fast: stamps of loaders and of
+		// registrations are not comparable with each other)
+		e.RegisterLoader(&memTsLoader{src: map[string]string{"same": "ver:1:{{ x }}"}, mt: map[string]int64{"same": 4102444800}})
 		calls[1] = call{do: func() (string, error) { return "", e.RegisterString("same", "ver:2:{{ x }}") }, want: map[int]string{0: ""}}
 		for g := 2; g <= c.NG; g++ {
 			g := g
